@@ -71,15 +71,23 @@ int main(int argc, char** argv) {
 			count(std::string("roundtrip:") + AK[ak]);
 		} else {  // ---- view round trip: save a view, load into a view of equal extents over a guarded root
 			if(A.num_elements() == 0) { describe("view of empty (skipped)"); return; }
-			int const vk_ = int(g.below(4)); static char const* VN[] = {"whole()", "rotated", "block", "strided"};
+			int const vk_ = int(g.below(5)); static char const* VN[] = {"whole()", "rotated", "block", "strided", "transposed"};
 			std::string const K = std::string("C17:view:") + AK[ak] + ":" + VN[vk_] + ":"; describe(std::string("view of array<") + TN + "," + std::to_string(D) + "> " + AK[ak] + " extents=" + join(e, "x") + " view=" + VN[vk_]); sig_mix(K.c_str()); nontrivial(A.num_elements() >= 2);
 			MV root = MV::root(e); MV vm; std::string s;
-			auto with_v = [&](auto& X, auto&& f) { switch(vk_) { case 1: vm = m_rotated(root); f(X.rotated()); break; case 2: { L b1 = e[0] >= 2 ? 1 : 0; vm = m_sliced(root, b1, e[0]); f(X.sliced(b1, e[0])); break; } case 3: if(e[0] % 2 == 0) { vm = m_strided(root, 2); f(X.strided(2)); break; } [[fallthrough]]; default: vm = root; f(X()); break; } };
+			auto with_v = [&](auto& X, auto&& f) { switch(vk_) { case 1: vm = m_rotated(root); f(X.rotated()); break; case 2: { L b1 = e[0] >= 2 ? 1 : 0; vm = m_sliced(root, b1, e[0]); f(X.sliced(b1, e[0])); break; } case 3: if(e[0] % 2 == 0) { vm = m_strided(root, 2); f(X.strided(2)); break; } vm = root; f(X()); break; case 4: if constexpr(D >= 2) { vm = m_transposed(root); f(X.transposed()); break; } [[fallthrough]]; default: vm = root; f(X()); break; } };
 			op((std::string("save-view:") + AK[ak]).c_str()); with_v(A, [&](auto&& v) { s = save(ak, v); });
 			Arr W(make_extensions<D>(e)); for(L k = 0; k < W.num_elements(); ++k) W.data_elements()[k] = mk(5000 + k); Arr const W0 = W;
 			op((std::string("load-view:") + AK[ak]).c_str()); with_v(W, [&](auto&& w) { load(ak, s, w); });
 			std::vector<char> in(std::size_t(W.num_elements()), 0); for(L k = 0; k < vm.n(); ++k) { L o = vm.off[std::size_t(k)]; in[std::size_t(o)] = 1; if(!(W.data_elements()[o] == A.data_elements()[o])) violation(K + "elements", "k-th element of the loaded view differs from the k-th element of the saved view, k=" + std::to_string(k)); }
 			for(L o = 0; o < W.num_elements(); ++o) if(!in[std::size_t(o)] && !(W.data_elements()[o] == W0.data_elements()[o])) violation(K + "outside-view-modified", "loading into a view modified an element outside it");
+			// the archive of a view is layout-independent: it loads into a contiguous view of equal extents element by element in canonical order, and vice versa
+			{ Arr Z(make_extensions<D>(vm.size)); for(L k = 0; k < Z.num_elements(); ++k) Z.data_elements()[k] = mk(7000 + k);
+				op((std::string("load-view-into-contiguous:") + AK[ak]).c_str()); load(ak, s, Z());
+				for(L k = 0; k < vm.n(); ++k) if(!(Z.data_elements()[k] == A.data_elements()[vm.off[std::size_t(k)]])) { violation(K + "cross-layout:elements", "k-th element (canonical order) of a contiguous view loaded from the archive of a " + std::string(VN[vk_]) + " view differs from the k-th element of the saved view, k=" + std::to_string(k)); break; }
+				for(L k = 0; k < Z.num_elements(); ++k) Z.data_elements()[k] = mk(8000 + k); op((std::string("save-contiguous-view:") + AK[ak]).c_str()); std::string const s2 = save(ak, Z());
+				Arr W2 = W0; op((std::string("load-contiguous-archive-into-view:") + AK[ak]).c_str()); with_v(W2, [&](auto&& w) { load(ak, s2, w); });
+				for(L k = 0; k < vm.n(); ++k) if(!(W2.data_elements()[vm.off[std::size_t(k)]] == Z.data_elements()[k])) { violation(K + "cross-layout:elements-into-view", "k-th element of a " + std::string(VN[vk_]) + " view loaded from the archive of a contiguous view differs, k=" + std::to_string(k)); break; }
+				for(L o = 0; o < W2.num_elements(); ++o) if(!in[std::size_t(o)] && !(W2.data_elements()[o] == W0.data_elements()[o])) { violation(K + "cross-layout:outside-view-modified", "loading into a view modified an element outside it"); break; } }
 			count(std::string("view-roundtrip:") + AK[ak]);
 		}
 	});
